@@ -62,6 +62,24 @@ func c07Snapshot(n *drv.Node, name string) c07Snap {
 	return c07Snap{img: fmt.Sprintf("%d/%x", img.PageN, sha256.Sum256(img.Bytes())), pos: mon.PosOf(n, name), ltx: strings.Join(names, ","), size: int(img.PageN)}
 }
 
+// c07StableSnapshot takes snapshots until two in a row agree. The raw files are
+// read without locks, and a node that has just lost its lease runs its own
+// recovery (checkpoint: pages copied into the database file, then the log
+// truncated) in the background: one unlocked read may see the database file from
+// before and the log from after. A real change is permanent and still shows.
+func c07StableSnapshot(n *drv.Node, name string) c07Snap {
+	prev := c07Snapshot(n, name)
+	for i := 0; i < 300; i++ {
+		time.Sleep(2 * time.Millisecond)
+		cur := c07Snapshot(n, name)
+		if cur == prev {
+			return cur
+		}
+		prev = cur
+	}
+	return prev
+}
+
 func isReadOnlyErr(err error) bool {
 	if err == nil {
 		return false
@@ -472,7 +490,7 @@ func c07B(c *core.Case) {
 	}
 	c.Count("demotions_mid_tx", 1)
 	c.Count("ops_judged", 1)
-	after := c07Snapshot(P.Node, "db")
+	after := c07StableSnapshot(P.Node, "db")
 	detail := map[string]any{"wal": wal, "journal_mode": jmode, "how": how, "lost_before_step": lostBefore, "tx_error": fmt.Sprint(txErr), "before": fmt.Sprint(before), "after": fmt.Sprint(after), "exits": len(P.Node.Exits())}
 	for _, pe := range P.Node.Panics() {
 		c.Violate("C07/panic/"+siteOf(pe.Stack), fmt.Sprintf("panic after authority loss: %v", pe.Value), detail)
@@ -624,7 +642,7 @@ func c07C(c *core.Case) {
 	}
 	c.Count("ops_judged", 1)
 	c.Count("import_waiting_at_demotion", 1)
-	after := c07Snapshot(P.Node, "db")
+	after := c07StableSnapshot(P.Node, "db")
 	detail := map[string]any{"wal": wal, "how": how, "tx_error": fmt.Sprint(txErr), "import_status": r.status, "import_err": fmt.Sprint(r.err), "before": fmt.Sprint(before), "after": fmt.Sprint(after)}
 	if r.err == nil && r.status == 200 {
 		c.Violate("C07/import-succeeded-after-authority-loss", fmt.Sprintf("POST /import that was waiting for the write lock when the node lost its lease (%s) returned 200", how), detail)
